@@ -110,7 +110,7 @@ impl Check for C09 {
     fn cases(&self, tier: Tier) -> u64 {
         match tier {
             Tier::Quick => 15_000,
-            Tier::Thorough => 120_000,
+            Tier::Thorough => 400_000,
         }
     }
     fn langs(&self) -> Vec<&'static str> {
